@@ -207,7 +207,8 @@ class kFlowDecomp(pathmodel.AbstractPathModelDAG):
         
         # As for the greedy algorithm, flow-safe paths are defined only if no edge is ignored
         # (ignored edges may carry arbitrary or missing flow values)
-        if self.optimize_with_flow_safe_paths and len(edges_to_ignore_internal) == 0 and satisfies_flow_conservation:
+        # (and only for edge-weighted input: for node-weighted input G does not carry the flow on its edges)
+        if self.optimize_with_flow_safe_paths and self.flow_attr_origin == "edge" and len(edges_to_ignore_internal) == 0 and satisfies_flow_conservation:
             start_time = time.perf_counter()
             self.optimization_options["external_safe_paths"] = sfd.compute_flow_decomp_safe_paths(G=G, flow_attr=self.flow_attr)
             self.solve_statistics["flow_safe_paths_time"] = time.perf_counter() - start_time
@@ -399,10 +400,11 @@ class kFlowDecomp(pathmodel.AbstractPathModelDAG):
                     # And the fraction of edges that we need to cover is self.subpath_constraints_coverage
                     coverage_fraction = self.subpath_constraints_coverage
                 else:
-                    constraint_length = sum(self.G[u][v].get(self.length_attr, 1) for (u,v) in subpath)
+                    constraint_length = sum(self.G[u][v].get(self.length_attr, 1) for (u,v) in subpath if self.G.has_edge(u, v))
                     coverage_fraction = self.subpath_constraints_coverage_length
                 # If the subpath is not covered enough by the greedy decomposition, we return False
-                if gu.max_occurrence(subpath, paths, edge_lengths={(u,v): self.G[u][v].get(self.length_attr, 1) for (u,v) in subpath}) < constraint_length * coverage_fraction:
+                # (edges not in the graph are reported as ValueError by the constraint validation of the base class)
+                if gu.max_occurrence(subpath, paths, edge_lengths={(u,v): self.G[u][v].get(self.length_attr, 1) for (u,v) in subpath if self.G.has_edge(u, v)}) < constraint_length * coverage_fraction:
                     return False
         
         if len(paths) <= self.k:
